@@ -1,6 +1,6 @@
 """C14: raw <-> protobuf. Model Raw/RawProto.v, spec Raw/RawProtoSpec.v, theorems Properties/C14.v,
 correspondence against layout21raw::Library::{to_proto, from_proto}."""
-import json, os, re, struct
+import copy, json, os, re, struct
 from vlib import *
 from props.kernelcommon import kernel_tie_leg
 
@@ -301,12 +301,140 @@ FIXED_CASES = [
                          "layout": {"name": "b", "shapes": [], "insts": [{"name": "i", "cell": {"local": "a"}, "origin": [3, 4], "reflect": True, "rot": 90}], "annots": []}}]}},
 ]
 
+def audit_cases():
+    """directed kinds added by the generator audit (2026-10-02): input classes the random kinds never reach (coordinates of points
+    beyond +-90, registered Named/Other/Label purposes on elements, layer numbers at the i16 limits, abstracts without ports, empty
+    shape lists, degenerate point lists, abstract names, empty libraries, deep and wide hierarchies, a rectangle without corner)."""
+    out = []
+    I = (1 << 63) - 1
+    M = (1 << 31) - 1
+    cl = lambda v: max(-I - 1, min(I, v))
+    T0 = [{"num": 5, "name": None, "pairs": [[0, "Drawing"], [1, "Pin"], [2, "Obstruction"], [3, "Label"]]},
+          {"num": 7, "name": "m2", "pairs": [[4, "Drawing"], [9, "Pin"], [6, "Obstruction"]]}]
+    def lay(name, elems=None, insts=None, annots=None, lname=None):
+        return {"name": name, "abs": None, "layout": {"name": lname or name, "insts": insts or [], "annots": annots or [], "elems": elems or []}}
+    def el(shape, net=None, layer=0, purpose="Drawing"):
+        return {"net": net, "layer": layer, "purpose": purpose, "shape": shape}
+    def inst(cell, loc, reflect=False, angle=None, name="i"):
+        return {"name": name, "cell": cell, "loc": list(loc), "reflect": reflect, "angle": None if angle is None else f2b(angle)}
+    def raw(kind, cells, layers=None, units="Nano", name="lib"):
+        for il in ("none", "same"):
+            out.append({"op": "raw", "kind": kind, "import_layers": il,
+                        "lib": {"name": name, "units": units, "layers": copy.deepcopy(T0 if layers is None else layers), "cells": copy.deepcopy(cells)}})
+    # 1. points far from the origin on everything that goes through export_point / import_point
+    for k, (a, b) in enumerate(((M, -M - 1), (1 << 40, -(1 << 40) - 3), (I, -I - 1), (-I - 1, I), ((1 << 53) + 1, -(1 << 62)))):
+        cells = [lay("leaf", [el({"G": [[a, b], [cl(a - 7), cl(b + 9)], [0, 0]]}, "n"), el({"P": [[[a, 0], [a, b], [3, b]], 4]}, None, 1, "Pin"), el({"G": [[b, a], [0, 5], [a, a]]})],
+                     annots=[["far", [a, b]], ["t", [b, a]]]),
+                 lay("top", [], [inst(0, (a, b), True, 90.0), inst(0, (b, a), False, None, "j")])]
+        cells[0]["abs"] = {"name": "leaf", "outline": [[a, b], [a, 0], [0, 0], [0, b]], "ports": [{"net": "p", "shapes": [[0, [{"G": [[a, b], [b, a], [1, 1]]}, {"P": [[[b, b], [a, b]], 0]}]]]}],
+                           "blockages": [[1, [{"G": [[a, a], [b, b], [a, b]]}]]]}
+        raw("aud_bigpoints", cells, units=["Micro", "Nano", "Angstrom"][k % 3])
+    # 2. registered Label / Outline / Other / Named purposes on elements
+    TP = [{"num": 7, "name": "m1", "pairs": [[0, "Drawing"], [1, "Label"], [2, "Pin"], [3, "Obstruction"], [4, "Outline"], [5, {"Other": 5}], [6, {"Named": ["fill", 6]}], [9, {"Named": ["Fill", 9]}]]},
+          {"num": 8, "name": None, "pairs": [[20, "Label"], [0, {"Other": 0}], [-1, {"Named": ["", -1]}], [2, "Pin"], [3, "Obstruction"]]}]
+    es = []
+    for k, pu in enumerate(["Drawing", "Label", "Pin", "Obstruction", "Outline", {"Other": 5}, {"Named": ["fill", 6]}, {"Named": ["Fill", 9]}]):
+        es.append(el({"R": [[10 * k, 0], [10 * k + 4, 2]]}, None if k % 2 else "n%d" % k, 0, pu))
+    for k, pu in enumerate(["Label", {"Other": 0}, {"Named": ["", -1]}]):
+        es.append(el({"G": [[10 * k, 30], [10 * k + 5, 30], [10 * k + 2, 38]]}, "P%d" % k, 1, pu))
+        es.append(el({"P": [[[10 * k, 50], [10 * k + 6, 50]], 2]}, None, 1, pu))
+    raw("aud_purpose_kinds", [lay("c0", es), lay("top", list(reversed(es)), [inst(0, (1, 2))])], layers=TP)
+    # 3. layer and purpose numbers at the i16 limits and negative (raw side: in range by type)
+    TE = [{"num": -32768, "name": None, "pairs": [[-32768, "Drawing"], [32767, "Pin"], [-1, "Obstruction"]]},
+          {"num": 32767, "name": "top", "pairs": [[32767, "Drawing"], [-32768, "Pin"], [0, "Obstruction"]]},
+          {"num": -1, "name": None, "pairs": [[-1, "Pin"], [-2, "Drawing"], [5, "Obstruction"]]}]
+    es = [el({"R": [[0, 0], [4, 2]]}, "a", 0, "Drawing"), el({"R": [[10, 0], [14, 2]]}, None, 0, "Pin"), el({"R": [[20, 0], [24, 2]]}, "b", 1, "Drawing"), el({"R": [[30, 0], [34, 2]]}, "c", 1, "Pin"),
+          el({"P": [[[0, 10], [8, 10], [8, 20]], 3]}, "d", 2, "Drawing"), el({"G": [[40, 0], [46, 0], [43, 5]]}, "e", 2, "Obstruction"), el({"R": [[0, 0], [1, 1]]}, None, 0, "Obstruction")]
+    c0 = lay("c0", es)
+    c0["abs"] = {"name": "c0", "outline": [[0, 0], [9, 0], [9, 9], [0, 9]], "ports": [{"net": "p", "shapes": [[0, [{"R": [[1, 1], [2, 2]]}]], [1, [{"R": [[3, 3], [4, 4]]}]], [2, [{"R": [[5, 5], [6, 6]]}]]]}],
+                 "blockages": [[2, [{"R": [[0, 0], [9, 1]]}]], [0, [{"R": [[0, 8], [9, 9]]}]]]}
+    raw("aud_layer_numbers_edge", [c0], layers=TE)
+    # 4. abstracts: no ports, a port without layers, a layer with an empty shape list, an outline with 0 / 1 / 8 points, the abstract named
+    #    differently from its cell, the same net on two ports
+    def ab(name, outline, ports, blockages=None):
+        return {"name": name, "outline": outline, "ports": ports, "blockages": blockages or []}
+    sq = [[0, 0], [9, 0], [9, 9], [0, 9]]
+    raw("aud_abstract_shapes", [{"name": "a", "layout": None, "abs": ab("a", sq, [])},
+                                {"name": "b", "layout": None, "abs": ab("b", sq, [{"net": "p", "shapes": []}, {"net": "q", "shapes": [[0, []]]}], [[1, []]])},
+                                {"name": "c", "layout": None, "abs": ab("c", [], [{"net": "p", "shapes": [[0, [{"R": [[1, 1], [2, 2]]}]]]}])},
+                                {"name": "d", "layout": None, "abs": ab("d", [[3, 3]], [{"net": "p", "shapes": [[1, [{"R": [[1, 1], [2, 2]]}]]]}, {"net": "p", "shapes": [[1, [{"R": [[5, 5], [6, 6]]}]]]}])},
+                                {"name": "e", "layout": None, "abs": ab("e", [[0, 0], [4, 0], [4, 2], [8, 2], [8, 8], [2, 8], [2, 4], [0, 4]], [{"net": "", "shapes": [[0, [{"P": [[[1, 1], [3, 1]], 1]}]]]}])}])
+    both = lay("cellname", [el({"R": [[0, 0], [4, 2]]}, "n")], lname="layoutname")
+    both["abs"] = ab("abstractname", sq, [{"net": "p", "shapes": [[0, [{"R": [[1, 1], [2, 2]]}]]]}])
+    raw("aud_abstract_name", [both, {"name": "only_abs", "layout": None, "abs": ab("other_name", sq, [])}, lay("top", [], [inst(0, (0, 0)), inst(1, (5, 5), True)])])
+    # 5. degenerate point lists and strings
+    raw("aud_degenerate_shapes", [lay("c0", [el({"G": []}, "a"), el({"G": [[1, 1]]}), el({"G": [[0, 0], [4, 4]]}, "b"), el({"P": [[], 2]}), el({"P": [[[1, 1]], 0]}, "c"), el({"R": [[3, 3], [3, 3]]}, "d"),
+                                              el({"G": [[0, 0], [2, 0], [2, 0], [0, 0]]}), el({"P": [[[0, 0], [0, 0]], 4]})], annots=[["", [0, 0]], ["two words", [1, 1]], ["ä中", [2, 2]]])])
+    raw("aud_strings", [lay("Cell ä", [el({"R": [[0, 0], [4, 2]]}, "Nét"), el({"R": [[10, 0], [14, 2]]}, " "), el({"R": [[20, 0], [24, 2]]}, "x" * 300), el({"R": [[30, 0], [34, 2]]}, "VDD"), el({"R": [[40, 0], [44, 2]]}, "vdd")]),
+                        lay("cell ä", [el({"R": [[0, 0], [1, 1]]})]), lay("top", [], [inst(0, (0, 0), name=""), inst(1, (9, 9), name="i"), inst(0, (5, 5), name="i"), inst(1, (7, 7), name="ä b")])], name="Lib ä")
+    # 6. no cells at all; one cell without views
+    raw("aud_empty_lib", [])
+    raw("aud_empty_lib", [{"name": "ghost", "layout": None, "abs": None}], name="")
+    # 7. a chain of 12 cells listed top first, and a cell with 150 instances and 150 elements
+    cells = [lay("n0", [el({"R": [[0, 0], [4, 2]]}, "x")])]
+    for k in range(1, 12):
+        cells.append(lay("n%d" % k, [el({"R": [[k, -k], [k + 4, 2 - k]]}, "z%d" % k)], [inst(k - 1, (3 * k, -2 * k), k % 3 == 0, [None, 90.0, 180.0, 270.0, 0.0][k % 5])]))
+    rev = [dict(c, layout=dict(c["layout"], insts=[dict(i, cell=11 - i["cell"]) for i in c["layout"]["insts"]])) for c in reversed(cells)]
+    raw("aud_deep_chain", rev)
+    raw("aud_wide_cell", [lay("top", [el({"R": [[7 * k, 100], [7 * k + 4, 102 + k % 3]]}, ("w%d" % k) if k % 2 else None, k % 2, ["Drawing", "Pin"][k % 2]) for k in range(150)],
+                              [inst(1, (7 * k, -50 - k), k % 2 == 0, [None, 90.0, 180.0, 270.0][k % 4], "i%d" % k) for k in range(150)]), lay("leaf", [el({"R": [[0, 0], [4, 2]]}, "n")])])
+    # ---- message side
+    def pcell(name, layout=None, abs_=None):
+        return {"name": name, "circuit": False, "abs": abs_, "layout": layout}
+    def playout(name, shapes=None, insts=None, annots=None):
+        return {"name": name, "shapes": shapes or [], "insts": insts or [], "annots": annots or []}
+    def pinst(cell, origin, reflect=False, rot=0, name="i"):
+        return {"name": name, "cell": {"local": cell}, "origin": list(origin), "reflect": reflect, "rot": rot}
+    def pls(layer, rects=None, polys=None, paths=None):
+        return {"layer": layer, "rects": rects or [], "polys": polys or [], "paths": paths or []}
+    def proto(kind, cells, layers=None, units=1, domain="lib"):
+        out.append({"op": "proto", "kind": kind, "layers": copy.deepcopy(layers), "plib": {"domain": domain, "units": units, "author": False, "cells": copy.deepcopy(cells)}})
+    TL = [{"num": 5, "name": None, "pairs": [[0, "Drawing"], [1, "Pin"], [2, "Obstruction"]]}, {"num": 7, "name": "m2", "pairs": [[4, "Drawing"], [9, "Pin"], [6, "Obstruction"]]}]
+    for k, (a, b) in enumerate(((M, -M - 1), (1 << 40, -(1 << 40) - 3), (I, -I - 1), (-I - 1, I), ((1 << 53) + 1, -(1 << 62)))):
+        shapes = [pls([5, 0], rects=[{"net": "", "ll": [b, b], "w": 0, "h": 7}], polys=[{"net": "n", "v": [[a, b], [cl(a - 7), cl(b + 9)], [0, 0]]}], paths=[{"net": "", "pts": [[a, 0], [a, b], [3, b]], "w": 4}])]
+        pa = {"name": "leaf", "outline": {"net": "", "v": [[a, b], [a, 0], [0, 0], [0, b]]}, "ports": [{"net": "p", "shapes": [pls([5, 1], polys=[{"net": "", "v": [[a, b], [b, a], [1, 1]]}])]}],
+              "blockages": [pls([7, 6], paths=[{"net": "", "pts": [[b, b], [a, b]], "w": 0}])]}
+        for ly in (TL, None):
+            proto("aud_bigpoints", [pcell("leaf", playout("leaf", shapes, annots=[{"s": "far", "loc": [a, b]}]), pa if ly else None),
+                                    pcell("top", playout("top", insts=[pinst("leaf", (a, b), True, 90), pinst("leaf", (b, a), False, 0, "j")]))], layers=ly, units=k % 3)
+    # a rectangle without its corner; empty vertex / point lists; the limits of the layer numbers
+    proto("aud_rect_no_corner", [pcell("c", playout("c", [pls([5, 0], rects=[{"net": "", "ll": [0, 0], "w": 1, "h": 1}, {"net": "", "ll": None, "w": 1, "h": 1}])]))], layers=TL)
+    proto("aud_rect_no_corner", [pcell("c", None, {"name": "c", "outline": {"net": "", "v": [[0, 0], [9, 0], [9, 9]]}, "ports": [{"net": "p", "shapes": [pls([5, 1], rects=[{"net": "", "ll": None, "w": 1, "h": 1}])]}], "blockages": []})], layers=TL)
+    proto("aud_degenerate_shapes", [pcell("c", playout("c", [pls([5, 0], polys=[{"net": "", "v": []}, {"net": "a", "v": [[1, 1]]}, {"net": "", "v": [[0, 0], [4, 4]]}], paths=[{"net": "", "pts": [], "w": 2}, {"net": "b", "pts": [[1, 1]], "w": 0}]),
+                                                             pls([7, 4], rects=[{"net": "", "ll": [3, 3], "w": 0, "h": 0}])], annots=[{"s": "", "loc": [0, 0]}]),
+                                          {"name": "c", "outline": {"net": "", "v": []}, "ports": [], "blockages": []})], layers=TL)
+    for num, pur in ((32767, 32767), (-32768, -32768), (32768, 0), (-32769, 0), (0, 32768), (0, -32769), (-1, -1), (I, 0), (0, -I - 1)):
+        proto("aud_layer_numbers_edge", [pcell("c", playout("c", [pls([num, pur], rects=[{"net": "", "ll": [0, 0], "w": 1, "h": 1}])]))])
+    # abstracts: no ports, a port without shapes, two blockage groups on one layer, the abstract named differently from its cell
+    sqp = {"net": "", "v": [[0, 0], [9, 0], [9, 9], [0, 9]]}
+    r1 = [{"net": "", "ll": [1, 1], "w": 1, "h": 1}]
+    proto("aud_abstract_shapes", [pcell("a", None, {"name": "a", "outline": sqp, "ports": [], "blockages": []}),
+                                  pcell("b", None, {"name": "b", "outline": sqp, "ports": [{"net": "p", "shapes": []}, {"net": "q", "shapes": [pls([5, 1], rects=r1)]}], "blockages": [pls([5, 2], rects=r1), pls([7, 6], rects=r1)]}),
+                                  pcell("top", playout("top", insts=[pinst("a", (0, 0)), pinst("b", (1, 1), True, 180)]))], layers=TL)
+    proto("aud_abstract_shapes", [pcell("b", None, {"name": "b", "outline": sqp, "ports": [{"net": "p", "shapes": [pls([5, 1], rects=r1)]}], "blockages": [pls([5, 2], rects=r1), pls([5, 2], polys=[{"net": "", "v": [[0, 0], [1, 0], [1, 1]]}])]})], layers=TL)
+    proto("aud_abstract_name", [pcell("cellname", playout("layoutname", [pls([5, 0], rects=r1)]), {"name": "abstractname", "outline": sqp, "ports": [{"net": "p", "shapes": [pls([5, 1], rects=r1)]}], "blockages": []}),
+                                pcell("only_abs", None, {"name": "other_name", "outline": sqp, "ports": [], "blockages": []}),
+                                pcell("top", playout("top", insts=[pinst("cellname", (0, 0)), pinst("only_abs", (5, 5), True)]))], layers=TL)
+    proto("aud_empty_lib", [])
+    proto("aud_empty_lib", [], units=0, domain="")
+    proto("aud_empty_lib", [pcell("ghost")], units=2)
+    pc = [pcell("n0", playout("n0", [pls([5, 0], rects=r1)]))]
+    for k in range(1, 12):
+        pc.append(pcell("n%d" % k, playout("n%d" % k, [pls([5, 0], rects=[{"net": "z%d" % k, "ll": [k, -k], "w": 4, "h": 2}])], [pinst("n%d" % (k - 1), (3 * k, -2 * k), k % 3 == 0, [0, 90, 180, 270, -90][k % 5])])))
+    proto("aud_deep_chain", pc, layers=TL)
+    proto("aud_wide_cell", [pcell("leaf", playout("leaf", [pls([5, 0], rects=r1)])),
+                            pcell("top", playout("top", [pls([5, 0], rects=[{"net": ("w%d" % k) if k % 2 else "", "ll": [7 * k, 100], "w": 4, "h": 2 + k % 3} for k in range(150)])],
+                                                 [pinst("leaf", (7 * k, -50 - k), k % 2 == 0, [0, 90, 180, 270][k % 4], "i%d" % k) for k in range(150)]))], layers=TL)
+    proto("aud_strings", [pcell("Cell ä", playout("Cell ä", [pls([5, 0], rects=[{"net": "Nét", "ll": [0, 0], "w": 1, "h": 1}, {"net": " ", "ll": [5, 0], "w": 1, "h": 1}, {"net": "x" * 300, "ll": [9, 0], "w": 1, "h": 1}])], annots=[{"s": "ä中", "loc": [2, 2]}])),
+                          pcell("top", playout("top", insts=[pinst("Cell ä", (0, 0), name=""), pinst("Cell ä", (1, 1), name="ä b")]))], layers=TL, domain="Lib ä")
+    return out
+
 def gen_cases(chk):
     rng = chk.rng
     quick = chk.tier == "quick"
     nraw = 900 if quick else 20000
     npro = 700 if quick else 15000
-    cases = list(FIXED_CASES)          # minimal regression cases, always run first
+    cases = list(FIXED_CASES) + audit_cases()          # minimal regression cases and the directed kinds, always run first
     raw_kinds = RAW_KINDS if raw_deporder_checked() else [k for k in RAW_KINDS if k[0] != "cyclic"]   # without the pending set a cycle overflows the stack (C17)
     for _ in range(nraw):
         cases.append(gen_raw_case(rng, pick(rng, raw_kinds)))
